@@ -647,7 +647,7 @@ def model_check(ctx, ext, known, quick):
         for attempt in (0, 1):
             c = dict(cfgd, excuse_all=(attempt == 1))
             name = f"MC_{cname}_{attempt}"
-            want_reach = bool(cfgd.get("reach")) and attempt == 0
+            want_reach = bool(cfgd.get("reach"))
             d = write_mc(ctx, name, ext, "ProcessState", c, INVS + (["Reach"] if want_reach else []),
                          [list(s) for s in known])
             res = vp.tlc(d, name, workers=1 if want_reach else 4, timeout=900 if quick else 3000, libs=["process"])
@@ -655,7 +655,7 @@ def model_check(ctx, ext, known, quick):
             if res.timed_out:
                 raise vp.ToolError(f"TLC timed out on {name}")
             out["wit"] += parse_prints(res, "WITNESS")
-            if want_reach:
+            if want_reach:    # the run that visits every state is the last one
                 out["reach"] = parse_prints(res, "REACH")
             if res.violated:
                 if res.violated not in INVS or attempt == 1:
